@@ -4,6 +4,9 @@ and — for a period of an even number of microseconds — it is "nearest slot, 
 -/
 import Frequenz.Model.RingBuffer
 
+set_option linter.unusedSimpArgs false
+set_option linter.unusedVariables false
+
 namespace RingBuffer
 open Extracted.RingBuffer
 
